@@ -140,14 +140,18 @@ pub fn c01_oracle(case: &PlanCase, trace: &Trace, ctx: &mut Ctx) {
             return;
         }
         let prob = &case.problems[pi];
-        let start_valid = case.world.valid(cfg, &prob.start);
+        let world = case.world_by_index(m.world);
+        let start_valid = world.valid(cfg, &prob.start);
         if !start_valid {
             ctx.label("start-invalid");
+        }
+        if m.world == 1 {
+            ctx.label("solve-under-second-world");
         }
         match &st.res {
             Res::Path(p) => {
                 for (k, s) in p.iter().enumerate() {
-                    if !case.world.valid(cfg, s) {
+                    if !world.valid(cfg, s) {
                         let sig = if k == 0 && !start_valid {
                             format!("C01:invalid-start-returned-in-path:{pname}")
                         } else if k + 1 == p.len()
@@ -450,7 +454,17 @@ fn c03_k<K: Kind>(case: &PlanCase, trace: &Trace, ctx: &mut Ctx) {
     }
     let pname = planner_name(case.planner);
     let mut log: Option<DecodedLog<K>> = None;
-    for st in &trace.steps {
+    let worlds = step_worlds(case, trace);
+    // validity answers are only comparable within one world: oracle A looks at the log since the
+    // last setup that changed the world
+    let mut log_from = 0usize;
+    let mut last_world = 0usize;
+    for (si, st) in trace.steps.iter().enumerate() {
+        if worlds[si] != last_world {
+            last_world = worlds[si];
+            log_from = st.vlog.0;
+        }
+        let world = case.world_by_index(worlds[si]);
         let Res::Path(p) = &st.res else { continue };
         if trace.rec.vlog.len() > 60_000 {
             ctx.discard("log too large for oracle A");
@@ -460,7 +474,7 @@ fn c03_k<K: Kind>(case: &PlanCase, trace: &Trace, ctx: &mut Ctx) {
         let mut long_edge = false;
         for k in 0..p.len().saturating_sub(1) {
             let (a, b) = (&p[k], &p[k + 1]);
-            let (gap, d, n_on, _rej) = oracle_a(&ks, lg, 0, st.vlog.1, a, b);
+            let (gap, d, n_on, _rej) = oracle_a(&ks, lg, log_from, st.vlog.1, a, b);
             let tol = seg_tol(&case.space, d);
             let ek = edge_kind(case, &st.snap, p, k);
             ctx.label(format!("edge:{ek}"));
@@ -476,7 +490,7 @@ fn c03_k<K: Kind>(case: &PlanCase, trace: &Trace, ctx: &mut Ctx) {
                     ),
                 );
             }
-            let run = oracle_b(&ks, &case.world, a, b, lvs);
+            let run = oracle_b(&ks, world, a, b, lvs);
             if run >= lvs + tol {
                 ctx.fail(
                     format!("C03:invalid-stretch:{pname}:{ek}"),
@@ -507,6 +521,8 @@ impl Prop for C03 {
             p_thin_walls: 0.6,
             big_radius: true,
             budget_scale: 0.7,
+            p_nonconvex: 0.25,
+            p_prm_requery: 0.4,
             ..Default::default()
         };
         gen_plan_case(ch, &prof)
@@ -675,6 +691,9 @@ impl Prop for C05 {
         let prof = Profile {
             seam_bias: 0.3,
             max_obst: 2,
+            p_nonconvex: 0.25,
+            p_prm_requery: 0.4,
+            big_radius: ch.prob(0.5),
             ..Default::default()
         };
         gen_plan_case(ch, &prof)
